@@ -69,8 +69,14 @@ type Mini struct {
 	// IndexV (optional, consulted before Index) gives meaning to x[i] from the folded base and index
 	// (either may be an opaque symbol when it is outside the abstraction).
 	IndexV func(m *Mini, x *ast.IndexExpr, base, idx MV) (MV, bool)
+	// Equal (optional, consulted first by ==, != and switch-case matching) decides the equality of two
+	// folded values the rule's abstraction distinguishes (e.g. a singleton such as types.Null against
+	// any other type symbol); ok=false leaves the decision to the built-in rules.
+	Equal func(m *Mini, a, b MV) (eq, ok bool)
+	// Lookup (optional) gives meaning to the two-value map lookup `v, ok := x[i]`.
+	Lookup func(m *Mini, x *ast.IndexExpr, base, idx MV) (v MV, present, ok bool)
 	steps  int
-	depth int
+	depth  int
 }
 
 type miniErr struct{ s string }
@@ -545,6 +551,15 @@ func (m *Mini) assign(s *ast.AssignStmt, env *menv) {
 			} else {
 				vals = []MV{m.zero(m.Info.Types[r.Type].Type), constant.MakeBool(false)}
 			}
+		case *ast.IndexExpr:
+			if m.Lookup == nil || len(s.Lhs) != 2 {
+				m.fail(s, "two-value index expression outside the abstraction")
+			}
+			v, present, ok := m.Lookup(m, r, m.tryExpr(r.X, env), m.tryExpr(r.Index, env))
+			if !ok {
+				m.fail(s, "two-value index expression outside the abstraction")
+			}
+			vals = []MV{v, constant.MakeBool(present)}
 		default:
 			m.fail(s, "unsupported multi-value assignment")
 		}
@@ -609,6 +624,11 @@ func (m *Mini) truth(x ast.Expr, env *menv) bool {
 }
 
 func (m *Mini) equal(at ast.Node, a, b MV) bool {
+	if m.Equal != nil {
+		if eq, ok := m.Equal(m, a, b); ok {
+			return eq
+		}
+	}
 	ca, ok1 := a.(constant.Value)
 	cb, ok2 := b.(constant.Value)
 	if ok1 && ok2 {
@@ -838,7 +858,7 @@ func (m *Mini) call(call *ast.CallExpr, env *menv) []MV {
 	if fn != nil {
 		if fd := m.P.Decl(fn); fd != nil && fd.Body != nil && m.depth < 8 {
 			pk := m.P.PkgOf(fn)
-			sub := &Mini{P: m.P, Info: pk.TypesInfo, Call: m.Call, Sel: m.Sel, Range: m.Range, Index: m.Index, Unroll: m.Unroll, IndexV: m.IndexV, Store: m.Store, Counters: m.Counters, depth: m.depth + 1}
+			sub := &Mini{P: m.P, Info: pk.TypesInfo, Call: m.Call, Sel: m.Sel, Range: m.Range, Index: m.Index, Unroll: m.Unroll, IndexV: m.IndexV, Store: m.Store, Counters: m.Counters, Equal: m.Equal, Lookup: m.Lookup, depth: m.depth + 1}
 			bind := map[types.Object]MV{}
 			if fd.Recv != nil && len(fd.Recv.List) > 0 && len(fd.Recv.List[0].Names) > 0 {
 				bind[pk.TypesInfo.Defs[fd.Recv.List[0].Names[0]]] = recv
